@@ -409,7 +409,7 @@ def rewrite(text, keep_attrs=False, keep_pub=False, name="<item>", std_derives=F
                     cut.append((sig[i][1], sig[end][2]))
                     i = end + 1
                     continue
-                if re.match(r"cfg\(\s*unix\s*\)$", an) or re.match(r'cfg\(\s*target_family\s*=\s*"unix"\s*\)$', an):
+                if re.match(r"cfg\(\s*(not\(\s*)?unix\s*\)?\s*\)$", an) or re.match(r'cfg\(\s*(not\(\s*)?target_family\s*=\s*"unix"\s*\)?\s*\)$', an):
                     # kept verbatim: the verification host is the (unix) platform the default build runs on
                     i = close + 1
                     continue
